@@ -493,6 +493,24 @@ theorem C07_param_eq_uuid (x y : Nat) (hx : x < 2 ^ 128) (hy : y < 2 ^ 128) : uu
     exact (Loaded.val_inj this).symm
   · intro h; rw [h]
 
+/-! ### inline constants: the literal of a value in the query text is the text a parameter / the stored value has -/
+
+/-- a datetime / date / time constant is rendered exactly as the value is stored and as a parameter is bound — for every value
+    (including microsecond 0, whole seconds, midnight: always the 26-character form for datetimes) -/
+theorem C07_const_is_param (x : DateTime) (d : Date) (t : Time) :
+    Sql.text (constDatetimeText x) = datetimeToSql x ∧ Sql.text (constDateText d) = dateToSql d ∧ Sql.text (constTimeText t) = timeToSql t :=
+  ⟨rfl, rfl, rfl⟩
+
+/-- hence `attr == <constant>` selects exactly the rows whose stored value is that datetime (same for date and time) -/
+theorem C07_const_selects_equal_datetime (c y : DateTime) (hc : c.valid) (hy : y.valid) :
+    Sql.text (constDatetimeText c) = datetimeToSql y ↔ c = y := C07_param_eq_datetime c y hc hy
+theorem C07_const_selects_equal_date (c y : Date) (hc : c.valid) (hy : y.valid) :
+    Sql.text (constDateText c) = dateToSql y ↔ c = y := C07_param_eq_date c y hc hy
+theorem C07_const_selects_equal_time (c y : Time) (hc : c.valid) (hy : y.valid) :
+    Sql.text (constTimeText c) = timeToSql y ↔ c = y := C07_param_eq_time c y hc hy
+
+example : constDatetimeText ⟨⟨2020, 1, 1⟩, ⟨12, 30, 0, 0⟩⟩ = "2020-01-01 12:30:00.000000".toList := by decide
+
 /-! ### non-vacuity -/
 example : dateToText ⟨999, 12, 31⟩ = "0999-12-31".toList := by decide
 example : dateFromSql (.text "999-12-31".toList) = .raw (.text "999-12-31".toList) := by decide
